@@ -1,8 +1,134 @@
-import AlgoVerif.Common
-/-! Line-protocol component for C19 — not built yet. -/
-namespace AlgoVerif.C19.Driver
+import AlgoVerif.Model.C19
+/-!
+Line-protocol component for C19.
 
-def runCase (_hdr : List String) (ops : List String) : List String :=
-  ops.map fun _ => "bad-case"
+header: `comp=<input|stream|wild> src=x<hex> n=<buffer size> reader=<full|one|half|dataeof|chunks:tok,tok,…>`
+with `tok` = (`h` | cap)(`e` | `x`)? or `E` (after the script: `io.EOF` together with the last bytes).
+ops: `new`, `next`, `retract`, `lexeme`, `skip`; every output line carries the dump of the internal state.
+-/
+namespace AlgoVerif.C19.Driver
+open AlgoVerif AlgoVerif.C19
+
+def hexDigit (c : Char) : Option Nat :=
+  if '0' ≤ c ∧ c ≤ '9' then some (c.toNat - '0'.toNat)
+  else if 'a' ≤ c ∧ c ≤ 'f' then some (c.toNat - 'a'.toNat + 10)
+  else none
+
+def parseHex : List Char → Option (List UInt8)
+  | [] => some []
+  | a :: b :: rest =>
+    match hexDigit a, hexDigit b, parseHex rest with
+    | some x, some y, some r => some (UInt8.ofNat (16 * x + y) :: r)
+    | _, _, _ => none
+  | _ => none
+
+def hexChar (n : Nat) : Char :=
+  if n < 10 then Char.ofNat ('0'.toNat + n) else Char.ofNat ('a'.toNat + n - 10)
+
+def showHex (bs : List UInt8) : String :=
+  String.ofList (bs.flatMap fun b => [hexChar (b.toNat / 16), hexChar (b.toNat % 16)])
+
+def parseTok (tok : String) : Option (Sum Answer Unit) :=
+  if tok = "E" then some (.inr ())
+  else
+    let cs := tok.toList
+    let (body, flag) : List Char × Flag :=
+      match cs.reverse with
+      | 'e' :: r => (r.reverse, .eofWithData)
+      | 'x' :: r => (r.reverse, .ioerr)
+      | _ => (cs, .none)
+    if body = ['h'] then some (.inl { half := true, cap := 0, flag := flag })
+    else
+      match (String.ofList body).toNat? with
+      | some v => some (.inl { half := false, cap := v, flag := flag })
+      | none => none
+
+def parseReader (spec : String) (src : List UInt8) : Option Reader :=
+  let rep (a : Answer) : Reader := { rest := src, script := List.replicate (src.length + 2) a }
+  if spec = "full" then some { rest := src }
+  else if spec = "dataeof" then some { rest := src, tailEof := true }
+  else if spec = "one" then some (rep { cap := 1 })
+  else if spec = "half" then some (rep { half := true, cap := 0 })
+  else if spec.startsWith "chunks:" then
+    let body := (spec.drop 7).toString
+    if body = "" then some { rest := src }
+    else
+      (body.splitOn ",").foldl (init := some { rest := src }) fun acc tok =>
+        match acc, parseTok tok with
+        | some r, some (.inl a) => some { r with script := r.script ++ [a] }
+        | some r, some (.inr ()) => some { r with tailEof := true }
+        | _, _ => none
+  else none
+
+def showErr : Option ErrKind → String
+  | none => "nil"
+  | some .eof => "eof"
+  | some .other => "other"
+
+def showPos (p : Pos) : String := s!"{p.offset} {p.line} {p.column}"
+
+def showInts (l : List Int) : String := "[" ++ " ".intercalate (l.map toString) ++ "]"
+
+def dump (i : Input) : String :=
+  s!"buf=x{showHex i.buff.toList} lb={i.lexemeBegin} fw={i.forward} ahead={if i.ahead then 1 else 0} " ++
+  s!"err={showErr i.err} off={i.offset} line={i.line} col={i.column} ncol={i.nextColumn} " ++
+  s!"rs={showNatList i.runeSizes.reverse} lc={showInts i.lastColumns.reverse}"
+
+inductive St where
+  | fresh (r : Reader)
+  | live (i : Input)
+  | closed
+  | dead
+
+def step (n : Nat) (st : St) (line : String) : St × String :=
+  match st, words line with
+  | .dead, _ => (.dead, "skip")
+  | .fresh r, ["new"] =>
+    match Input.new r n with
+    | .ok (.ok i) => (.live i, "ok | " ++ dump i)
+    | .ok (.error .eof) => (.closed, "ok err eof")
+    | .ok (.error .other) => (.closed, "ok err other")
+    | .panic => (.dead, "panic")
+    | .diverge => (.dead, "hang")
+  | .closed, [_] => (.closed, "ok noinput")
+  | .live i, ["next"] =>
+    match i.Next with
+    | .ok (i, .rune r) => (.live i, s!"ok r {r} | " ++ dump i)
+    | .ok (i, .err .eof) => (.live i, "ok err eof | " ++ dump i)
+    | .ok (i, .err .other) => (.live i, "ok err other | " ++ dump i)
+    | .ok (i, .invalid p) => (.live i, s!"ok err utf8 {showPos p} | " ++ dump i)
+    | .panic => (.dead, "panic")
+    | .diverge => (.dead, "hang")
+  | .live i, ["retract"] =>
+    match i.Retract with
+    | .ok i => (.live i, "ok | " ++ dump i)
+    | .panic => (.dead, "panic")
+    | .diverge => (.dead, "hang")
+  | .live i, ["lexeme"] =>
+    match i.Lexeme with
+    | .ok (i, bytes, p) => (.live i, s!"ok x{showHex bytes} {showPos p} | " ++ dump i)
+    | .panic => (.dead, "panic")
+    | .diverge => (.dead, "hang")
+  | .live i, ["skip"] =>
+    let (i, p) := i.Skip
+    (.live i, s!"ok {showPos p} | " ++ dump i)
+  | st, _ => (st, "bad-op")
+
+def runOps (n : Nat) : St → List String → List String
+  | _, [] => []
+  | st, l :: ls => let (st', out) := step n st l; out :: runOps n st' ls
+
+def runCase (hdr : List String) (ops : List String) : List String :=
+  let n := headerNat hdr "n" 0
+  let src := ((headerGet hdr "src").getD "x").toList
+  match src with
+  | 'x' :: hex =>
+    match parseHex hex with
+    | some bytes =>
+      match parseReader ((headerGet hdr "reader").getD "full") bytes with
+      | some r => if n < 1 then ops.map fun _ => "bad-case" else runOps n (.fresh r) ops
+      | none => ops.map fun _ => "bad-case"
+    | none => ops.map fun _ => "bad-case"
+  | _ => ops.map fun _ => "bad-case"
 
 end AlgoVerif.C19.Driver
